@@ -116,14 +116,28 @@ func (c01) Runs(tier string) int {
 }
 
 func (c01) Gen(r *kern.Rng, tier string, idx int) *Trace {
+	if idx%193 == 11 {
+		// content sweep for the vector token encoders: large inputs of dense
+		// copies with log-uniform lengths and (far) distances give tokens of
+		// 25..35 bits, around the lane-width limits of the assembly encoders
+		sc := &scen.WScen{Pkg: "flate", Guard: true, Ctor: r.PickS("new", "new", "4k"), Level: r.Pick(1, 2, -1)}
+		sc.Data = scen.DataSpec{Kind: "logcopies", Seed: r.Uint64(), P1: r.Pick(0, 1), Len: r.Range(150000, 320000)}
+		sc.Ops = []scen.WOp{{K: "w", N: 1 << 30}, {K: "c"}}
+		return &Trace{Property: "C01", Family: "W-plain(content sweep)", W: sc, Sweep: true, Stride: tierLen(tier, 40, 120), Note: "seed_sweep"}
+	}
 	if idx%197 == 3 { // a prime, so that the sweeps spread over all worker shards
 		// length sweep: the same setting and data for several hundred consecutive
 		// input lengths, so that the end of the data meets every phase of the
 		// encoder's output-buffer roll-over
 		sc := &scen.WScen{Pkg: "flate", Guard: true, Ctor: r.PickS("new", "new", "4k")}
 		sc.Level = r.Pick(-2, -2, -2, 1, 2, -1)
-		sc.Data = scen.DataSpec{Kind: r.PickS("rand", "rand", "text", "alpha", "fib"), Seed: r.Uint64(), P1: r.Pick(3, 16, 24, 200)}
+		sc.Data = scen.DataSpec{Kind: r.PickS("rand", "rand", "text", "alpha", "fib", "logcopies"), Seed: r.Uint64(), P1: r.Pick(3, 16, 24, 200)}
 		sc.Data.Len = r.Pick(7900, 8100, 16200, 24400, 30000, 65500, 73000) + r.Intn(300)
+		if r.Pct(20) && sc.Level != -2 {
+			// sparse-file shape: the head length sweeps across the point where the token buffer fills
+			sc.Data.Kind, sc.Data.P1 = "head_run", r.Pick(20000, 70000)
+			sc.Data.Len = sc.Data.P1 + r.Pick(1, 2)*32767 - 350
+		}
 		sc.Ops = []scen.WOp{{K: "w", N: 1 << 30}, {K: "c"}}
 		if r.Pct(30) {
 			sc.Ops = []scen.WOp{{K: "w", N: 1000 + r.Intn(3000)}, {K: "f"}, {K: "w", N: 1 << 30}, {K: "c"}}
@@ -230,7 +244,12 @@ func lengthSweep(tr *Trace, keep bool, exec func(*Trace) *Outcome) *Outcome {
 	for d := 0; d < tr.Stride; d++ {
 		c := tr.Clone()
 		c.Sweep, c.Stride = false, 0
-		c.W.Data.Len = tr.W.Data.Len + d
+		if tr.Note == "seed_sweep" {
+			c.W.Data.Seed = tr.W.Data.Seed + uint64(d) // same shape, different content
+			c.Note = ""
+		} else {
+			c.W.Data.Len = tr.W.Data.Len + d
+		}
 		so := exec(c)
 		o.Evals += so.Evals
 		o.Events += so.Events
